@@ -151,6 +151,15 @@ func c15Run(cs c15Case, r *rt.Result) (sig, detail string) {
 			r.Count("reads_after_failed_read_unjudged", 1)
 			return "", ""
 		}
+		if n < 0 {
+			// a negative size is refused and changes nothing: the reads that
+			// follow are judged against the unchanged model
+			if err == nil {
+				return "negative-read-accepted/" + op + "/" + st, fmt.Sprintf("%s(%d) returned %d bytes and no error", op, n, len(got))
+			}
+			r.Count("negative_reads_refused", 1)
+			return "", ""
+		}
 		if n > avail {
 			if !errors.Is(err, tds.ErrNotEnoughBytes) {
 				return "short-read-not-reported/" + op + "/" + st, fmt.Sprintf("%s(%d) with %d bytes available returned err=%v, want ErrNotEnoughBytes", op, n, avail, err)
@@ -576,7 +585,7 @@ func c15ReadSize(op string, rnd *rt.Rand, max int) int {
 	if (op == "bytes" || op == "str") && rnd.Chance(1, 25) {
 		// a length no queue can hold (a 4-byte length field read from
 		// hostile input, an arithmetic slip in a caller)
-		huge := []int{math.MaxInt, math.MaxInt - 1, math.MaxInt - 7, math.MaxInt - 600, 1 << 62, 1 << 40, 1 << 32, 1<<31 - 1, 1 << 31}
+		huge := []int{math.MaxInt, math.MaxInt - 1, math.MaxInt - 7, math.MaxInt - 600, 1 << 62, 1 << 40, 1 << 32, 1<<31 - 1, 1 << 31, -1, -1, -8, math.MinInt}
 		return huge[rnd.Intn(len(huge))]
 	}
 	return rnd.Intn(max + 1)
@@ -663,7 +672,9 @@ func c15GenWRB(rnd *rt.Rand) c15Case {
 			continue
 		}
 		cs.Ops = append(cs.Ops, c15Op{Op: op, N: sz})
-		left -= sz
+		if sz > 0 {
+			left -= sz // a refused (negative) size consumes nothing
+		}
 	}
 	return cs
 }
@@ -705,7 +716,9 @@ func c15GenAlt(rnd *rt.Rand) c15Case {
 				continue
 			}
 			cs.Ops = append(cs.Ops, c15Op{Op: op, N: sz})
-			read += sz
+			if sz > 0 {
+				read += sz
+			}
 		}
 		cs.Ops = append(cs.Ops, c15Op{Op: "saver"})
 	}
